@@ -75,6 +75,10 @@ CHECKS = {
          "The pool of queries and the four documents bound the histories; equality of answers is by the harness's value dump with nodes mapped to the reference tree.",
          "DESIGN.md §5 C19"),
  # id: (technique, level text, level note, design_ref)
+ "C17": ("bounded-exhaustive product of documents x selecting paths x replacement values x flags run through the REAL xe / xq binaries as processes; reference parser + reference XPath + reference edit compute the expected document / lines; stdout parsed back with the reference parser",
+         "For every combination within the deviation bound the compact output of xe must denote exactly the document in which the children of the selected nodes are replaced, xq must print one serialization per selected node in document order or the scalar, and unusable input must end with a message and a non-zero status without a crash.",
+         "Trusts wf.rs (reference parser), the reference XPath evaluator and the edit model in mc/src/checks/c17.rs; pretty-printed output is checked for status and crashes only.",
+         "DESIGN.md §5 C17"),
  "C18": ("total enumeration of all 1,114,112 scalar values + bounded-exhaustive name strings (len<=3/4 over 30 class representatives) in 8 syntactic positions, against transcribed tables",
          "Every Unicode scalar value is classified by the five public predicates and compared with tables transcribed from the Recommendation (complete, no bound); every short string over class representatives and range boundaries is offered as a name in every syntactic position and accept/reject compared with reference Name/NCName/QName matchers.",
          "Trusts the transcription of productions [2],[4],[4a],[13],[81] in mc/src/model/chars.rs; names longer than the bound and characters outside the 30-symbol alphabet are covered only through the per-code-point stage.",
